@@ -328,12 +328,15 @@ func runC04(c *core.Ctx) {
 		inst := core.FuncDecl(wp, "Store", "instantiate")
 		ok := false
 		if inst != nil {
-			ast.Inspect(inst.Body, func(n ast.Node) bool {
-				if rs, isR := n.(*ast.RangeStmt); isR && appendIn(rs.Body) {
-					ok = true
-				}
-				return true
-			})
+			// in instantiate itself or in a helper it calls (one level)
+			for _, sn := range armScope(wp, inst.Body) {
+				ast.Inspect(sn, func(n ast.Node) bool {
+					if rs, isR := n.(*ast.RangeStmt); isR && appendIn(rs.Body) {
+						ok = true
+					}
+					return true
+				})
+			}
 		}
 		pos := token.NoPos
 		if inst != nil {
